@@ -336,7 +336,7 @@ Lemma sep_or_step : forall f r, tok_loop (S f) false (s_or ++ r) = consr TOr (to
 Proof. intros. unfold s_or. cbn [app]. rewrite st_ws, st_or, st_ws. reflexivity. Qed.
 
 (* first byte of a printed selector is never '=' (so "!" before it is not read as "!=") *)
-Lemma first_char : forall pn a, wfb pn a = true -> exists c s, to_string pn a = c :: s /\ c <> 61.
+Lemma first_char : forall pn a, wfb true a = true -> exists c s, to_string pn a = c :: s /\ c <> 61.
 Proof.
   intros pn a H.
   assert (L : forall l s, valid_label l = true -> exists c s', l ++ s = c :: s' /\ c <> 61).
@@ -366,7 +366,8 @@ Qed.
 
 Ltac split_and H := repeat match type of H with _ && _ = true => let H2 := fresh "W" in apply andb_true_iff in H; destruct H as [H H2] end.
 
-Lemma tok_ast : forall pn a, wfb pn a = true -> forall f r,
+(* (well-formedness does not depend on the printer variant here: wfb true is the weaker condition) *)
+Lemma tok_ast : forall pn a, wfb true a = true -> forall f r,
   tok_loop (length (toks_of pn a) + f) false (to_string pn a ++ r) = app_res (toks_of pn a) (tok_loop f false r).
 Proof.
   intros pn. induction a using ast_ind_nested; intros W f r; cbn [wfb] in W.
@@ -488,10 +489,28 @@ Proof.
 Qed.
 
 (* the canonical text of a well-formed AST tokenises to its token list *)
-Lemma tokenize_to_string : forall pn a, wfb pn a = true -> tokenize (to_string pn a) = Ok (toks_of pn a ++ [TEOF]).
+Lemma forallb_impl_F : forall (g k : ast -> bool) xs,
+  Forall (fun x => g x = true -> k x = true) xs -> forallb g xs = true -> forallb k xs = true.
+Proof.
+  intros g k xs HF. induction HF as [|x xs Hx HF IH]; simpl; intros G; auto.
+  apply andb_true_iff in G. destruct G. rewrite Hx, IH; auto.
+Qed.
+
+Lemma wfb_mono : forall pn a, wfb pn a = true -> wfb true a = true.
+Proof.
+  intros pn. induction a using ast_ind_nested; cbn [wfb]; intros W; auto.
+  - apply andb_true_iff in W. destruct W as [_ W]. simpl. auto.
+  - apply andb_true_iff in W. destruct W as [W1 W2]. rewrite W1. simpl. apply (forallb_impl_F _ _ _ H W2).
+  - apply andb_true_iff in W. destruct W as [W1 W2]. rewrite W1. simpl. apply (forallb_impl_F _ _ _ H W2).
+Qed.
+
+Lemma tokenize_to_string_gen : forall pn a, wfb true a = true -> tokenize (to_string pn a) = Ok (toks_of pn a ++ [TEOF]).
 Proof.
   intros pn a W. unfold tokenize.
   assert (E : tok_loop (length (toks_of pn a) + 1) false (to_string pn a ++ []) = Ok (toks_of pn a ++ [TEOF])).
   { rewrite tok_ast by auto. reflexivity. }
   rewrite app_nil_r in E. apply (tok_mono _ _ _ _ E). pose proof (toks_len pn a). lia.
 Qed.
+
+Lemma tokenize_to_string : forall pn a, wfb pn a = true -> tokenize (to_string pn a) = Ok (toks_of pn a ++ [TEOF]).
+Proof. intros pn a W. apply tokenize_to_string_gen. eapply wfb_mono; eauto. Qed.
